@@ -5,7 +5,14 @@ use crate::sym;
 /// stage up to `n` operations on top of a committed (and possibly merged) state
 fn stage_ops(r: &Rep, n: usize, k: usize) {
     for _ in 0..n {
-        match sym::choose(4) {
+        match sym::choose(5) {
+            4 => {
+                // an object created and removed again within the same stage (its payload stays in the data stage)
+                let mut o = serde_json::Map::new();
+                o.insert("v".to_string(), serde_json::Value::from("fresh"));
+                r.m.create_object("zz", o).expect("create_object");
+                r.m.remove_object("zz").expect("remove_object");
+            }
             3 => {
                 // a staged resolution in favour of any live leaf (only possible while `a` is in conflict)
                 if r.m.in_conflict().contains("a") {
@@ -62,6 +69,9 @@ pub fn stage_roundtrip() {
     a.m.unstage().expect("unstage");
     assert!(!a.m.has_staging(), "staged after unstage");
     assert!(state(&a.m) == s0, "unstage did not restore the committed state");
+    assert!(a.m.stage().expect("stage").is_none(), "something is still exported as staged after unstage");
+    assert!(a.m.reload().is_ok(), "reload refused although everything was discarded");
+    assert!(state(&a.m) == s0, "reload after a discard changed the state");
     // replay the export
     a.m.replay_stage(&export).expect("replay_stage");
     assert!(state(&a.m) == s1, "replaying the exported stage did not restore the staged state");
@@ -70,7 +80,10 @@ pub fn stage_roundtrip() {
     let direct = a.snapshot();
     let c = a.m.commit(None).expect("commit");
     assert!(c.is_some() == staged, "commit reported a block although nothing was staged (or vice versa)");
-    assert!(!a.m.has_staging() && a.m.stage().unwrap().is_none(), "something staged after a successful commit");
+    assert!(!a.m.has_staging(), "revisions still staged after commit");
+    if c.is_some() {
+        assert!(a.m.stage().unwrap().is_none(), "something staged after a successful commit");
+    }
     let _ = direct;
     assert!(state(&a.reopen()) == state(&a.m), "reopened replica differs after committing a replayed stage");
     sym::reach(1);
